@@ -88,9 +88,13 @@ func (f *atomicFile) Commit() error {
 	if err := f.File.Close(); err != nil {
 		return err
 	}
-	// rename can't overwrite on windows
-	if err := os.Remove(f.name); err != nil && !os.IsNotExist(err) {
-		return err
+	// rename can't overwrite on windows; everywhere else rename replaces the
+	// destination atomically, so removing it first would open a window in
+	// which a crash leaves no file at all
+	if runtime.GOOS == "windows" {
+		if err := os.Remove(f.name); err != nil && !os.IsNotExist(err) {
+			return err
+		}
 	}
 	if err := os.Rename(f.File.Name(), f.name); err != nil {
 		return err
